@@ -109,6 +109,10 @@ class KDPseudoLabelWrapper(KDWrapper):
                 # NOTE: argmax is required because np.random.multinomial "counts" the number of outcomes
                 # so if multinomial of 5 values draws the 4th value and 1 trial is used the outcome would
                 # be [0, 0, 0, 1, 0] -> with argmax -> 4
+                # float32 weights can sum to slightly more than 1 which np.random.multinomial rejects
+                weights = weights.double().numpy()
+                if weights.sum() > 1.:
+                    weights = weights / weights.sum()
                 choice = rng.multinomial(1, weights).argmax()
             return topk_idxs[choice]
 
